@@ -1,7 +1,8 @@
 """C16 - the distance-matrix command labels and fills every cell correctly.
 
 Through the real CLI: 3 ways of supplying queries (files, list file + base directory, signature file) x 5 ways of supplying references (files, list
-file + directory, signature file, the database's signatures, --square) x -k/-p in {none, explicit} x -c in {unset, 1, 2} x ordered selections of the
+file + directory, signature file, the database's signatures, --square; plus reference files / list entries that carry exactly the QUERY labels but
+hold different genomes) x -k/-p in {none, explicit} x -c in {unset, 1, 2} x ordered selections of the
 genomes.  Quick: every supply combination with a reduced selection set, all <=2-element ordered selections for the files x files combination,
 options as deviations; thorough: all selections (<=3 elements, with one repetition) for every combination x all options.
 Oracle: header = reference labels in order; each row = query label + decimal rounding (4 places, computed through Decimal on the exact binary value)
@@ -23,7 +24,7 @@ ASSUMPTIONS = ['3 query and 3 reference genomes (one identical pair, one overlap
 QG = ['g1', 'g2', 'g4']
 RG = [0, 2, 5]
 QSUP = ['files', 'list', 'sig']
-RSUP = ['files', 'list', 'sig', 'db', 'square']
+RSUP = ['files', 'list', 'sig', 'db', 'square', 'files-samelabels', 'list-samelabels']
 
 
 def selections(items, maxlen, with_repeat):
@@ -47,6 +48,8 @@ def cases(tier):
 				for a in (qsel if qsup != 'sig' else [None]):
 					for b in (rsel if rsup in ('files', 'list') else [None]):
 						out.append((qsup, rsup, a, b, 'none', None))
+				if rsup.endswith('samelabels'):
+					continue
 				# options as deviations on one selection
 				a0 = None if qsup == 'sig' else [QG[1], QG[0]]
 				b0 = [RG[2], RG[0]] if rsup in ('files', 'list') else None
@@ -57,6 +60,8 @@ def cases(tier):
 			for rsup in RSUP:
 				for a in (selections(QG, 3, True) if qsup != 'sig' else [None]):
 					for b in (selections(RG, 2, True) if rsup in ('files', 'list') else [None]):
+						if rsup.endswith('samelabels') and a is not None and len(a) > 2:
+							continue
 						for kp in ('none', 'explicit'):
 							for c in (None, 1, 2):
 								if (kp, c) != ('none', None) and (a is not None and len(a) == 3) and (b is not None and len(b) > 1):
@@ -105,6 +110,16 @@ def run_case(sh, fx, d, case):
 		lf = clifix.write_listfile(os.path.join(d, 'rl.txt'), [f'ref{i}.fasta' for i in rsel])
 		args += ['--rl', lf, '--rdir', os.path.join(fx.d, 'r')]
 		rlabels, rsegs = [f'ref{i}' for i in rsel], [clifix.REFS[i] for i in rsel]
+	elif rsup in ('files-samelabels', 'list-samelabels'):
+		# the references carry exactly the labels of the queries (same file names in another directory) but are different genomes
+		rq = list(qsel) if qsel is not None else [QG[0], QG[1]]
+		if rsup == 'files-samelabels':
+			for l in rq:
+				args += ['-r', fx.rsame[l][0]]
+		else:
+			lf = clifix.write_listfile(os.path.join(d, 'rl.txt'), [clifix.QFILES[l] for l in rq])
+			args += ['--rl', lf, '--rdir', os.path.join(fx.d, 'rsame')]
+		rlabels, rsegs = list(rq), [clifix.REFS[fx.rsame[l][1]] for l in rq]
 	elif rsup == 'sig':
 		args += ['--rs', fx.rsig['P0']]
 		pname = 'P0'
@@ -117,7 +132,7 @@ def run_case(sh, fx, d, case):
 	else:
 		args += ['--square']
 		rlabels, rsegs = qlabels, qsegs
-	if qsup == 'sig' and kp == 'none' and rsup in ('files', 'list', 'square'):
+	if qsup == 'sig' and kp == 'none' and rsup in ('files', 'list', 'square', 'files-samelabels', 'list-samelabels'):
 		pname = 'P0'
 	code, stdout, exc, err = fixtures.run_cli(args)
 	sh.evals += 1
